@@ -398,6 +398,29 @@ func c07R4(c *Ctx, id string) {
 					detail = "nested buckets are deleted after the parent bucket was freed"
 				}
 			}
+			// the nested buckets are enumerated on EVERY path to the free: whether the doomed bucket is inline (root page 0)
+			// says nothing about what a MoveBucket of this transaction put into it
+			var enums []ssa.Instruction
+			for _, fe := range callsIn(db, "bbolt.(*Bucket).ForEachBucket") {
+				enums = append(enums, fe.(ssa.Instruction))
+			}
+			if len(enums) == 0 {
+				ok = false
+				detail = "the nested buckets of the doomed bucket are not enumerated"
+			} else {
+				r := reach(nil, []*ssa.BasicBlock{db.Blocks[0]}, func(in ssa.Instruction) bool {
+					for _, e := range enums {
+						if e == in {
+							return true
+						}
+					}
+					return false
+				}, nil)
+				if r[frees[0]] {
+					ok = false
+					detail = "the bucket can be freed without its nested buckets having been enumerated and deleted (a bucket moved into an inline / new bucket in this transaction keeps its pages)"
+				}
+			}
 			// the bucket freed is the one opened under the key
 			ls := provenance(frees[0].Call.Args[0], provOpts{})
 			if !hasLeaf(ls, "call", "bbolt.(*Bucket).Bucket") {
